@@ -111,6 +111,8 @@ def jobs(tier, seed):
                 dict(rk="list", k=1), dict(rk="list", k=2), dict(rk="array", k=2)]
     if not q:
         rowkinds.append(dict(rk="list", k=3))
+    else:
+        out.append(dict(base, ck="none", rk="list", k=3, L=2))       # permutations / repeats of three rows (materialisation of a row-list selection)
     # rows only: every presence pattern of the slice bounds
     for rk in rowkinds + [dict(rk="slice", rstep=s) for s in steps]:
         out.append(dict(base, ck="none", **rk))
